@@ -125,6 +125,10 @@ class OffsetMapping(MutableMapping[gtirb.Offset, T]):
         else:
             del self._data[key]
 
+    def clear(self) -> None:
+        """Remove all Offsets and all elements from the mapping."""
+        self._data.clear()
+
     def __contains__(self, key: object) -> bool:
         """
         Determines if the mapping contains a given Offset or any offset for a
